@@ -94,7 +94,11 @@ def handle (req : Json) : Except String Json := do
       | none => do
         let dims ← toDims (← (← getArr req "dims").toList.mapM (·.getNat?))
         let subs ← toSubs (← (← getArr req "subs").toList.mapM parseSub)
-        pure (if pad then outcomePadded cfg ⟨dims, subs, loop⟩ else outcome cfg ⟨dims, subs, loop⟩)
+        match (req.getObjVal? "subs2").toOption with
+        | some s2 => do
+          let subs2 ← toSubs (← (← s2.getArr?).toList.mapM parseSub)
+          pure (outcomePair cfg ⟨dims, subs, loop⟩ ⟨dims, subs2, loop⟩)
+        | none => pure (if pad then outcomePadded cfg ⟨dims, subs, loop⟩ else outcome cfg ⟨dims, subs, loop⟩)
     match res with
     | none => pure (Json.mkObj [("ok", true), ("outcome", "error")])
     | some rows =>
